@@ -2909,6 +2909,277 @@ def k_load_css_lock(E, tier):
     return rec
 
 
+def k_formal_args_eval(E, tier):
+    """C18: FormalArgs::eval binds arguments in the specified order: positional arguments by position,
+    then — for each remaining parameter, left to right — the named argument of that name (consumed), else
+    the default evaluated in the callee's argument scope (so it sees the parameters bound before it), else
+    a `missing argument` error; then the rest parameter gets what is left, or left-over named arguments
+    are an error; more arguments than parameters are an error unless there is a rest parameter."""
+    f = E.find(name_re=r"^formal_args::<impl at .*>::eval$")
+    rec = Rec("FormalArgs::eval", f, E)
+    ctx = E.ctx()
+    me = sym.Opaque("FormalArgs", "self", ctx)
+    outer = sym.Opaque("ScopeRef", "outer-scope", ctx)
+    args = sym.Opaque("css::call_args::CallArgs", "args", ctx)
+    argscope = sym.Opaque("ScopeRef", "argscope", ctx)
+    positional = sym.Opaque("Vec<css::value::Value>", "positional", ctx)
+    m_len = ctx.fresh_scalar(("bv", 64, False), "args_len")
+    np_len = ctx.fresh_scalar(("bv", 64, False), "args_positional_len")
+    p_len = ctx.fresh_scalar(("bv", 64, False), "taken_len")
+    n_len_holder = {}
+    formals, posvals, namedvals, defvals = [], [], [], []
+
+    def full(ex, st, x):
+        while isinstance(x, sym.Ref):
+            x = ex.deref(st, x)
+        return x
+
+    def formal(k):
+        while len(formals) <= k:
+            i = len(formals)
+            formals.append((sym.Opaque("Name", "param%d" % i, ctx), sym.Opaque("std::option::Option<sass::value::Value>", "default%d" % i, ctx)))
+            posvals.append(sym.Opaque("css::value::Value", "positional%d" % i, ctx))
+            namedvals.append(sym.Opaque("css::value::Value", "named%d" % i, ctx))
+            defvals.append(sym.Opaque("css::value::Value", "default-value%d" % i, ctx))
+        return formals[k]
+
+    def find_len(o, depth=0):
+        # the declared number of parameters = PtrMetadata of self.0's slice: the `len` child somewhere below self.0
+        if not isinstance(o, sym.Opaque) or depth > 6:
+            return None
+        if "len" in o.children and isinstance(o.children["len"], sym.Scalar):
+            return o.children["len"].term
+        for k_, v_ in o.children.items():
+            r_ = find_len(v_, depth + 1)
+            if r_ is not None:
+                return r_
+        return None
+
+    def ev(name, st, ex, a, result=None):
+        e = sym.Event(name, a, result, len(st.pc))
+        e.rargs = [full(ex, st, x) for x in a]
+        st.events.append(e)
+        return e
+
+    def m_sub(ex, st, c, a, d):
+        ev("sub", st, ex, a)
+        return argscope
+
+    def m_args_len(ex, st, c, a, d):
+        return m_len
+
+    def m_vec_len(ex, st, c, a, d):
+        v = full(ex, st, a[0])
+        if v is positional:
+            return p_len
+        return np_len
+
+    def m_take(ex, st, c, a, d):
+        ev("take_positional", st, ex, a)
+        n = a[1].term
+        # contract of CallArgs::take_positional(n): the first min(n, #positional) positional values
+        st.pc.append("(= %s (ite (bvult %s %s) %s %s))" % (p_len.term, n, np_len.term, n, np_len.term))
+        return positional
+
+    def m_zip_next(ex, st, c, a, d):
+        k = sum(1 for e in st.events if e.callee == "zip-some")
+        if k >= 2:
+            st.events.append(sym.Event("cut", [], None, len(st.pc)))
+            return sym.Agg(d, "None", {}, 0)
+        formal(k)
+        some, none = st.fork(), st.fork()
+        some.pc.append("(bvugt %s %s)" % (p_len.term, bvlit(k, 64)))
+        none.pc.append("(= %s %s)" % (p_len.term, bvlit(k, 64)))
+        some.cells["F%d" % k] = sym.Agg("pair", None, {"0": formals[k][0], "1": formals[k][1]})
+        some.events.append(sym.Event("zip-some", [], None, len(st.pc)))
+        none.events.append(sym.Event("zip-none", [], None, len(st.pc)))
+        return [(some, sym.Agg(d, "Some", {"0": sym.Agg("tuple", None, {"0": sym.Ref("cell", "F%d" % k), "1": sym.Ref("val", posvals[k])})}, 1)),
+                (none, sym.Agg(d, "None", {}, 0))]
+
+    def m_rest_index(ex, st, c, a, d):
+        start = a[1].fields.get("start") if isinstance(a[1], sym.Agg) else None
+        ev("rest-slice", st, ex, a, start)
+        return sym.Opaque("slice", "rest", ctx)
+
+    def m_rest_next(ex, st, c, a, d):
+        P = sum(1 for e in st.events if e.callee == "zip-some")
+        j = sum(1 for e in st.events if e.callee == "rest-some")
+        k = P + j
+        n = find_len(me.children.get("0"))
+        if j >= 2 or n is None:
+            st.events.append(sym.Event("cut", [], None, len(st.pc)))
+            return sym.Agg(d, "None", {}, 0)
+        formal(k)
+        some, none = st.fork(), st.fork()
+        some.pc.append("(bvugt %s %s)" % (n, bvlit(k, 64)))
+        none.pc.append("(= %s %s)" % (n, bvlit(k, 64)))
+        some.cells["F%d" % k] = sym.Agg("pair", None, {"0": formals[k][0], "1": formals[k][1]})
+        some.events.append(sym.Event("rest-some", [], None, len(st.pc)))
+        none.events.append(sym.Event("rest-none", [], None, len(st.pc)))
+        return [(some, sym.Agg(d, "Some", {"0": sym.Ref("cell", "F%d" % k)}, 1)), (none, sym.Agg(d, "None", {}, 0))]
+
+    def m_remove(ex, st, c, a, d):
+        nm = full(ex, st, a[1])
+        k = [i for i, (n_, _) in enumerate(formals) if n_ is nm]
+        some, none = st.fork(), st.fork()
+        for s2, r in ((some, "some"), (none, "none")):
+            e = sym.Event("named-remove", a, r, len(st.pc))
+            e.rargs = [full(ex, st, x) for x in a]
+            s2.events.append(e)
+        v = namedvals[k[0]] if k else sym.Opaque("css::value::Value", "named?", ctx)
+        return [(some, sym.Agg(d, "Some", {"0": v}, 1)), (none, sym.Agg(d, "None", {}, 0))]
+
+    def m_clone(ex, st, c, a, d):
+        return full(ex, st, a[0])
+
+    def m_do_eval(ex, st, c, a, d):
+        dv = full(ex, st, a[0])
+        k = [i for i, (_, df) in enumerate(formals) if df.children.get("Some.0") is dv]
+        ok, err = st.fork(), st.fork()
+        e = sym.Event("eval-default", a, None, len(st.pc))
+        e.rargs = [full(ex, st, x) for x in a]
+        ok.events.append(e)
+        v = defvals[k[0]] if k else sym.Opaque("css::value::Value", "default?", ctx)
+        return [(ok, sym.Agg(d, "Ok", {"0": v}, 0)), (err, sym.Agg(d, "Err", {"0": sym.Opaque("Error", "eval-error", ctx)}, 1))]
+
+    def m_define(ex, st, c, a, d):
+        ok, err = st.fork(), st.fork()
+        e = sym.Event("define", a, None, len(st.pc))
+        e.rargs = [full(ex, st, x) for x in a]
+        ok.events.append(e)
+        return [(ok, sym.Agg(d, "Ok", {"0": sym.Unit()}, 0)), (err, sym.Agg(d, "Err", {"0": sym.Opaque("ScopeError", "define-error", ctx)}, 1))]
+
+    def m_check_no_named(ex, st, c, a, d):
+        ok, err = st.fork(), st.fork()
+        ok.events.append(sym.Event("check_no_named", a, "ok", len(st.pc)))
+        err.events.append(sym.Event("check_no_named", a, "err", len(st.pc)))
+        return [(ok, sym.Agg(d, "Ok", {"0": sym.Unit()}, 0)), (err, sym.Agg(d, "Err", {"0": sym.Opaque("ArgsError", "unexpected-named", ctx)}, 1))]
+
+    def m_only_named(ex, st, c, a, d):
+        ev("only_named", st, ex, a)
+        return sym.Opaque("std::option::Option<css::value::Value>", "only_named", ctx)
+
+    def m_unwrap_or_else(ex, st, c, a, d):
+        e = ev("rest-value", st, ex, a)
+        return sym.Agg("css::value::Value", "REST", {"0": e.rargs[0], "1": e.rargs[1] if len(e.rargs) > 1 else None})
+
+    ident = lambda ex, st, c, a, d: a[0]
+    models = [
+        (r"^ScopeRef::sub$", m_sub), (r"^css::call_args::CallArgs::len$", m_args_len), (r"^Vec::<css::value::Value>::len$", m_vec_len),
+        (r"^css::call_args::CallArgs::take_positional$", m_take),
+        (r"^core::slice::<impl \[\(Name, Option<sass::value::Value>\)\]>::iter$", lambda ex, st, c, a, d: sym.Opaque("iter", "formals-iter", ctx)),
+        (r"as Iterator>::zip::<", ident), (r"^<Zip<.*> as IntoIterator>::into_iter$", ident), (r"^<Zip<.*> as Iterator>::next$", m_zip_next),
+        (r"as Index<std::ops::RangeFrom<usize>>>::index$", m_rest_index), (r"^<&\[\(Name, Option<sass::value::Value>\)\] as IntoIterator>::into_iter$", ident),
+        (r"^<std::slice::Iter<'_, \(Name, Option<sass::value::Value>\)> as Iterator>::next$", m_rest_next),
+        (r"^OrderMap::<Name, css::value::Value>::remove$", m_remove),
+        (r"^<ScopeRef as Deref>::deref$", lambda ex, st, c, a, d: sym.Ref("val", full(ex, st, a[0]))),
+        (r"^<(Name|css::value::Value|ScopeRef) as Clone>::clone$", m_clone),
+        (r"^sass::value::Value::do_evaluate$", m_do_eval), (r"^variablescope::Scope::define$", m_define),
+        (r"^css::call_args::CallArgs::check_no_named$", m_check_no_named), (r"^css::call_args::CallArgs::only_named$", m_only_named),
+        (r"^Option::<css::value::Value>::unwrap_or_else::<", m_unwrap_or_else),
+        (r"^Option::<Name>::is_some$", lambda ex, st, c, a, d: sym.mk_bool("(= %s %s)" % (ex.discriminant(full(ex, st, a[0])).term, bvlit(1, 64)))),
+    ] + BASE_MODELS
+    ex = sym.Executor(ctx, models=models, inline=[r"^FormalArgs::is_varargs$"], unroll=6, feasibility=E.feasibility(ctx), max_paths=8000)
+    paths = [p for p in ex.run(f, [sym.Ref("val", me), outer, args]) if p.status == "return"]
+    rec.paths = len(paths)
+    n = find_len(me.children.get("0"))
+    va = me.children.get("1")
+    if n is None or va is None:
+        rec.add("the parameter count and the rest parameter are read (shape not recognised)", {"verdict": "inconclusive", "per_solver": {}, "time_s": 0})
+        return rec
+    VA = ex.discriminant(va).term
+    is_va = "(= %s %s)" % (VA, bvlit(1, 64))
+    seen = set()
+    for i, p in enumerate(paths):
+        if any(e.callee == "cut" for e in p.events):
+            continue
+        ret = p.ret
+        if not (isinstance(ret, sym.Agg) and ret.variant in ("Ok", "Err")):
+            rec.add("path %d: Ok or Err (shape not recognised)" % i, {"verdict": "inconclusive", "per_solver": {}, "time_s": 0})
+            continue
+        defs = [e for e in p.events if e.callee == "define"]
+        P = sum(1 for e in p.events if e.callee == "zip-some")
+        J = sum(1 for e in p.events if e.callee == "rest-some")
+        if ret.variant == "Err":
+            err = ret.fields["0"]
+            if isinstance(err, sym.Agg) and err.variant in ("TooMany", "TooManyPos"):
+                r = E.decide(ctx, p.pc + ["(not (and (not %s) (bvugt %s %s)))" % (is_va, m_len.term, n)])
+                ok_shape = not defs
+                rec.add("path %d: `too many arguments` only without a rest parameter and with more arguments than parameters, before anything is bound" % i,
+                        r if ok_shape else {"verdict": "violated", "per_solver": {"structural": "defines before the error"}, "time_s": 0})
+                seen.add("toomany")
+            elif isinstance(err, sym.Agg) and err.variant == "Missing":
+                rm = [e for e in p.events if e.callee == "named-remove"]
+                k = P + J - 1
+                good = bool(rm) and rm[-1].result == "none" and k >= 0 and rm[-1].rargs[1] is formals[k][0] and _payload_contains(err, formals[k][0])
+                r = E.decide(ctx, p.pc + ["(not (= %s %s))" % (ex.discriminant(formals[k][1]).term, bvlit(0, 64))]) if good else None
+                rec.add("path %d: `missing argument` names parameter %d, which has no positional value, no named value and no default" % (i, k),
+                        r if good else {"verdict": "violated", "per_solver": {"structural": "event identity"}, "time_s": 0})
+                seen.add("missing")
+            continue
+        # Ok: replay the binding order
+        good = ret.fields["0"] is argscope
+        why = []
+        want = []
+        for k in range(P):
+            want.append(("pos", k))
+        rm = [e for e in p.events if e.callee == "named-remove"]
+        evd = [e for e in p.events if e.callee == "eval-default"]
+        for j in range(J):
+            k = P + j
+            if j >= len(rm) or rm[j].rargs[1] is not formals[k][0]:
+                good = False
+                why.append("named lookup %d" % k)
+                break
+            want.append(("named", k) if rm[j].result == "some" else ("default", k))
+        nva = len(defs) - len(want)
+        if nva not in (0, 1) or len(defs) < len(want):
+            good = False
+            why.append("number of bindings")
+        for (kind, k), e in zip(want, defs):
+            val = {"pos": posvals, "named": namedvals, "default": defvals}[kind][k]
+            if not (e.rargs[0] is argscope and e.rargs[1] is formals[k][0] and e.rargs[2] is val):
+                good = False
+                why.append("binding %d (%s)" % (k, kind))
+        # defaults are evaluated in the argument scope, after the bindings to their left
+        for e in evd:
+            if e.rargs[1] is not argscope:
+                good = False
+                why.append("default evaluated in another scope")
+        order = [e.callee for e in p.events if e.callee in ("define", "eval-default")]
+        di = 0
+        for (kind, k) in want:
+            if kind == "default":
+                if di >= len(order) or order[di] != "eval-default":
+                    good = False
+                    why.append("default %d evaluated out of order" % k)
+                di += 1
+            di += 1
+        rec.add("path %d [%d positional, %d by name/default%s]: parameters are bound in order to the positional, named or default value, defaults in the callee scope"
+                % (i, P, J, ", rest" if nva == 1 else ""), {"verdict": "holds" if good else "violated", "per_solver": {"structural": "event identity %s" % why[:3]}, "time_s": 0})
+        # arity and left-overs
+        chk = [e for e in p.events if e.callee == "check_no_named"]
+        if nva == 1:
+            r = E.decide(ctx, p.pc + ["(not %s)" % is_va])
+            last = defs[-1]
+            rest_ok = last.rargs[0] is argscope and last.rargs[1] is va.children.get("Some.0") and isinstance(last.rargs[2], sym.Agg) and last.rargs[2].variant == "REST"
+            rec.add("path %d: the rest parameter is bound last, to what is left of the arguments, only when one is declared" % i,
+                    r if rest_ok else {"verdict": "violated", "per_solver": {"structural": "event identity"}, "time_s": 0})
+            seen.add("rest")
+        else:
+            r = E.decide(ctx, p.pc + ["(not (and (not %s) (bvule %s %s)))" % (is_va, m_len.term, n)])
+            rec.add("path %d: without a rest parameter Ok needs at most as many arguments as parameters and no left-over named argument (check_no_named passed)" % i,
+                    r if (len(chk) == 1 and chk[0].result == "ok") else {"verdict": "violated", "per_solver": {"structural": "check_no_named %s" % [c_.result for c_ in chk]}, "time_s": 0})
+            seen.add("plain")
+        seen.add("ok-%d-%d" % (P, J))
+    need = {"toomany", "missing", "rest", "plain"}
+    if not need <= seen:
+        rec.add("all outcome kinds explored (%s missing)" % sorted(need - seen), {"verdict": "inconclusive", "per_solver": {}, "time_s": 0})
+    rec.notes.append("up to 2 positional and 2 named/default parameters per call (loops unrolled twice); take_positional's contract (min(n, #positional) values) is assumed; "
+                     "Scope::define, do_evaluate, OrderMap::remove fork into all their outcomes")
+    return rec
+
+
 def k_value_eq_symmetric(E, tier):
     """C12: css::Value::eq is symmetric as a function of the two values' kinds and of the (symmetric)
     comparisons of their parts: eq(a,b) and eq(b,a) are executed symbolically and must be the same
